@@ -29,7 +29,8 @@ Inductive kind :=
 | KVecStr                                 (* std::vector<std::string> *)
 | KTuple                                  (* std::tuple<int,std::string,int> *)
 | KBitset (n : N) | KVecBool
-| KMap.                                   (* std::map<std::string,int> *)
+| KMap                                    (* std::map<std::string,int> *)
+| KMMap | KUMap | KUMMap.                 (* std::multimap / unordered_map / unordered_multimap<std::string,int> *)
 
 (** [o_ftab] = TypedArgBase::mFormats: slot 0 holds the general formats
     (addFormat), slot i + 1 the formats of value position i (addFormatPos) *)
@@ -60,7 +61,8 @@ Inductive cont :=
 | CTuple (a : Z) (s : str) (b : Z) (n : nat)
 | CBits (l : list N)                      (* positions set, ascending *)
 | CVBool (size : N) (l : list N)
-| CMap (l : list (str * Z)).              (* ascending by key *)
+| CMap (l : list (str * Z)).              (* map, multimap: iteration order = ascending by key, equal keys
+                                             in insertion order; the unordered kinds: ascending by (key, value) *)
 
 (* ------------------------------------------------------------------ *)
 (** * What the definition-time setters accept *)
@@ -68,6 +70,10 @@ Inductive cont :=
 (** ContainerAdapter<>::HasIterators, resp. an own setUniqueData() *)
 Definition has_iter (k : kind) : bool :=
   match k with KQueue | KStack | KPrio | KTuple | KBitset _ | KVecBool => false | _ => true end.
+
+(** the destinations of TypedArg< KeyValueContainerAdapter< T>> *)
+Definition kv_kind (k : kind) : bool :=
+  match k with KMap | KMMap | KUMap | KUMMap => true | _ => false end.
 
 (** !IsSorted && IsSortable, resp. an own setSortData() *)
 Definition sortable (k : kind) : bool :=
@@ -119,9 +125,9 @@ Definition add_format_pos (k : kind) (tab : list (list fmt)) (idx : Z) (f : fmt)
 Definition setup_ok (k : kind) (o : copts) : bool :=
   implb (o_sort o) (sortable k) && implb (o_uniq o) (has_iter k) && implb (o_clear o) (clearable k)
   && ftab_ok k (o_ftab o)
-  && implb (match k with KMap => true | _ => false end) (negb (ceq (o_sep o) COMMA)).
+  && implb (kv_kind k) (negb (ceq (o_sep o) COMMA)).      (* setListSep: not a character of the pair separator *)
 
-Definition default_sep (k : kind) : N := match k with KMap => 59%N | _ => COMMA end.
+Definition default_sep (k : kind) : N := if kv_kind k then 59%N else COMMA.
 Definition default_card (k : kind) : card := match k with KTuple => CardExact 3 | _ => CardNone end.
 
 (* ------------------------------------------------------------------ *)
@@ -153,6 +159,26 @@ Fixpoint map_add (k : str) (v : Z) (l : list (str * Z)) : list (str * Z) :=
       else if str_eqb k k' then l
       else (k', v') :: map_add k v r
   end.
+
+(** std::multimap::insert: behind the last entry whose key is not greater (the
+    upper bound of the key: equal keys stay in insertion order) *)
+Definition key_ltb (a b : str * Z) : bool := str_ltb (fst a) (fst b).
+Definition mmap_add (k : str) (v : Z) (l : list (str * Z)) : list (str * Z) := insert_sorted key_ltb (k, v) l.
+
+(** std::unordered_multimap::insert always adds; the content is kept in the
+    order in which the harness prints it: ascending by (key, value) *)
+Definition pair_ltb (a b : str * Z) : bool :=
+  str_ltb (fst a) (fst b) || (str_eqb (fst a) (fst b) && Z.ltb (snd a) (snd b)).
+Definition ummap_add (k : str) (v : Z) (l : list (str * Z)) : list (str * Z) := insert_sorted pair_ltb (k, v) l.
+
+(** addValue( key, value) = mDestCont.insert( { key, value}) of the four
+    adapters; unordered_map: unique keys, printed ascending = like std::map *)
+Definition kv_add (k : kind) : str -> Z -> list (str * Z) -> list (str * Z) :=
+  match k with KMMap => mmap_add | KUMMap => ummap_add | _ => map_add end.
+
+(** the key-value destination as the application left it: the pairs inserted in order *)
+Definition init_map (k : kind) (l : list (str * Z)) : list (str * Z) :=
+  fold_left (fun acc e => kv_add k (fst e) (snd e) acc) l [].
 
 (** the destination as the application left it: [l] in the order the values
     were inserted by the application *)
@@ -270,16 +296,22 @@ Definition step_vb (store : N -> list N -> N -> cont) (o : copts) (t : str) (siz
   if N.leb VB_LIMIT p then Fault Wrap      (* pos * 1.5 as double -> size_t: outside the model *)
   else Ok (store size l p).
 
-(** pair separator "," (the default, no setPairFormat in the configuration
+(** all four key-value destinations share one assign(); they differ in
+    addValue() only ([add]).  Pair separator "," (the default, no setPairFormat in the configuration
     language); general formats are never applied to pairs (format( key, 0) /
     format( value, 1) select the slots of addFormatKey / addFormatValue, which
     are not in the configuration language; addFormatPos is refused) *)
-Definition step_map (o : copts) (t : str) (l : list (str * Z)) : res cont :=
+Definition step_kv (add : str -> Z -> list (str * Z) -> list (str * Z)) (o : copts) (t : str)
+    (l : list (str * Z)) : res cont :=
   do _ <- run_checks (o_checks o) t;
   let '(k, v) := split2 COMMA t in
   if is_nil k || is_nil v then Err ERuntime else
+  (* unique data: the key is looked up (contains) whatever insert() would do with it; a dropped pair is
+     dropped before its value is converted *)
   if o_uniq o && map_has k l then (if o_dup_err o then Err ERuntime else Ok (CMap l))
-  else do z <- lex_int v; Ok (CMap (map_add k z l)).
+  else do z <- lex_int v; Ok (CMap (add k z l)).
+
+Definition step_map := step_kv map_add.
 
 Definition step_gen (pinned : bool) (k : kind) (o : copts) (t : str) (c : cont) : res cont :=
   match k, c with
@@ -289,7 +321,9 @@ Definition step_gen (pinned : bool) (k : kind) (o : copts) (t : str) (c : cont) 
   | KTuple, CTuple a s b n => step_tuple o t a s b n
   | KBitset n, CBits l => step_bits n o t l
   | KVecBool, CVBool size l => step_vb (if pinned then vb_store_pinned else vb_store) o t size l
-  | KMap, CMap l => step_map o t l
+  | (KMap | KUMap), CMap l => step_map o t l
+  | KMMap, CMap l => step_kv mmap_add o t l
+  | KUMMap, CMap l => step_kv ummap_add o t l
   | _, CInts l => do l' <- step_ints k o t l; Ok (CInts l')
   | _, _ => Fault NullDeref                 (* kind and content do not fit: not reachable *)
   end.
